@@ -583,7 +583,10 @@ class Run(RunBase):
             old = ob.prediction.trajectory
             states = [rebuild_state(s) for s in old.state_list]
             for s in states:
-                s.position = np.array(s.position, dtype=float) + np.array(op["d"], dtype=float)
+                if isinstance(s.position, np.ndarray):
+                    s.position = np.array(s.position, dtype=float) + np.array(op["d"], dtype=float)
+                else:  # an uncertain position (a region): move the region
+                    s.position = s.position.translate_rotate(np.array(op["d"], dtype=float), 0.0)
 
             def f():
                 ob.prediction.trajectory = Trajectory(old.initial_time_step, states)
@@ -1037,7 +1040,21 @@ class C11(Property):
         obstacles = []
         for _ in range(rng.randint(1, 4)):
             role = rng.weighted(["static", "dynamic", "dynamic_nopred", "dynamic_set", "phantom"], [2, 5, 1, 1, 1])
-            obstacles.append(gen.gen_obstacle(rng, ids.take(), net, role=role, interval_steps=0.3))
+            kinds = ("rect", "circ", "poly", "group") if rng.chance(0.2) else ("rect", "circ", "poly")
+            ob = gen.gen_obstacle(rng, ids.take(), net, role=role, interval_steps=0.3, shape_kinds=kinds,
+                                  offset_p=0.15)
+            if role == "dynamic" and ob.get("pred") and ob["pred"]["kind"] == "traj" and rng.chance(0.15) \
+                    and ob["shape"]["t"] != "group":
+                # uncertain states: position given as a region, orientation as an interval (the occupancy is then an
+                # enclosing rectangle)
+                for st in ob["pred"]["states"]:
+                    st["pos"] = gen._place({"t": "rect", "l": 1.0, "w": 0.6}, st["pos"], 0.0)
+                    if abs(st["ori"]) < 2.9:
+                        st["ori"] = {"aiv": [st["ori"] - 0.1, st["ori"] + 0.1]}
+                    st["cls"] = "custom"
+                    for kx in ("steer", "yaw", "slip", "acc"):
+                        st.pop(kx, None)
+            obstacles.append(ob)
         pool_net = gen.gen_network(rng, rows=1, cols=rng.randint(1, 3), ids=ids, signs=False, lights=False,
                                    intersections=False, stop_lines=False, overlap=False, extra_links=False)
         pool = {}
